@@ -301,6 +301,32 @@ impl NoGoodStore {
     }
 }
 
+#[cfg(adf_obdd_verif)]
+impl NoGoodStore {
+    /// Verification hook: public wrapper around the crate-private conclusion closure.
+    /// Returns `None` for an inconsistency, otherwise the closed interpretation and whether it was updated.
+    pub fn verif_conclusion_closure(&self, interpretation: &[Term]) -> Option<(Vec<Term>, bool)> {
+        match self.conclusion_closure(interpretation) {
+            ClosureResult::Update(val) => Some((val, true)),
+            ClosureResult::NoUpdate => Some((interpretation.to_vec(), false)),
+            ClosureResult::Inconsistent => None,
+        }
+    }
+
+    /// Verification hook (read-only): the stored nogoods, bucket by bucket, as (active, value) position lists.
+    pub fn verif_dump(&self) -> Vec<Vec<(Vec<u32>, Vec<u32>)>> {
+        self.store
+            .iter()
+            .map(|bucket| {
+                bucket
+                    .iter()
+                    .map(|ng| (ng.active.iter().collect(), ng.value.iter().collect()))
+                    .collect()
+            })
+            .collect()
+    }
+}
+
 /// Allows to define how costly the DuplicateElemination is done.
 #[derive(Debug, Copy, Clone)]
 pub enum DuplicateElemination {
